@@ -29,7 +29,7 @@ class Cfg:
                  b(self.re in ("anch", "anch1")), ",".join('"%s"' % k for k in self.match_keys) if self.re else ""))
 
     def regexp(self):
-        return {None: None, "unanch": "zzsecret", "anch": "^(zzsecretA|zzsecretB|zzsecret[0-9]+|date|oid|binary|base64|numberLong|eq|gte|ne|set|match|expr|and|or|cond|lookup|group|search)$", "anch1": "^zzsecretA$",
+        return {None: None, "unanch": "zzsecret", "anch": "^(zzsecretA|zzsecretB|zzsecret[0-9]+|oid|binary|numberLong|eq|ne|set|match|expr|lookup|group)$", "anch1": "^zzsecretA$",
                 "ci": "(?i)ZZSECRET"}[self.re]
 
     def flags(self):
